@@ -61,11 +61,16 @@ class Check(Operator):
                 raise SemanticError("1-1-10-1", op=cls.op, op_type="imbalance", me_type="Numeric")
 
         # Generating the result dataset components
-        result_components = {
-            comp.name: comp
-            for comp in validation_element.components.values()
-            if comp.role in [Role.IDENTIFIER, Role.MEASURE, Role.VIRAL_ATTRIBUTE]
-        }
+        # The boolean measure of the operand becomes bool_var (the column the
+        # transpiler emits), whatever it is called in the operand.
+        result_components: Dict[str, Component] = {}
+        for comp in validation_element.components.values():
+            if comp.role in [Role.IDENTIFIER, Role.VIRAL_ATTRIBUTE]:
+                result_components[comp.name] = comp
+            elif comp.role == Role.MEASURE:
+                bool_var = copy(comp)
+                bool_var.name = "bool_var"
+                result_components["bool_var"] = bool_var
         if imbalance_measure is None:
             result_components["imbalance"] = Component(
                 name="imbalance", data_type=Number, role=Role.MEASURE, nullable=True
